@@ -552,3 +552,70 @@ func c20Join(evs []string) string {
 	}
 	return strings.Join(evs, ",")
 }
+
+// ---------- a watcher that reports while it is being started ----------
+
+// c20EagerWatcher: Value() returns a snapshot; Watch() re-reads and reports a newer value through the
+// WatchArgs it was given, waiting for that report to be handled before it returns.  Natively dials stacks the
+// Value() result first and calls Watch() afterwards, so the newer value wins; behind a Blank the same must
+// hold after SetSource returned.
+type c20EagerWatcher struct {
+	init, newer int
+	fail        bool
+	reportErr   error
+}
+
+func (s *c20EagerWatcher) Value(context.Context, *dials.Type) (reflect.Value, error) {
+	return c20BValue(s.init, false), nil
+}
+
+func (s *c20EagerWatcher) Watch(ctx context.Context, _ *dials.Type, a dials.WatchArgs) error {
+	done := make(chan error, 1)
+	go func() { done <- a.BlockingReportNewValue(ctx, c20BValue(s.newer, false)) }()
+	select {
+	case s.reportErr = <-done:
+	case <-time.After(3 * time.Second):
+		s.reportErr = errors.New("harness: the report made inside Watch was not handled within 3s")
+	}
+	return nil
+}
+
+func c20BlankEager(c *Ctx, r *RNG, n int) {
+	res := c.Res
+	for i := 0; i < n; i++ {
+		w := &c20EagerWatcher{init: 1000 + r.Intn(1000), newer: 5000 + r.Intn(1000)}
+		native := false // natively the monitor only starts after every Watch returned: a report made inside Watch would wait for it
+		cs := map[string]any{"stream": "a watcher that reports a newer value while Watch runs", "value()": w.init, "reported_in_watch": w.newer, "native": native}
+		ctx, cancel := context.WithCancel(context.Background())
+		var d *dials.Dials[c20BCfg]
+		var err, setErr error
+		pn := catch(func() {
+			if native {
+				d, err = dials.Params[c20BCfg]{SkipInitialVerification: true}.Config(ctx, &c20BCfg{}, w)
+				return
+			}
+			b := &sourcewrap.Blank{}
+			d, err = dials.Params[c20BCfg]{SkipInitialVerification: true}.Config(ctx, &c20BCfg{}, b)
+			if err == nil {
+				sctx, sc := context.WithTimeout(ctx, 5*time.Second)
+				setErr = b.SetSource(sctx, w)
+				sc()
+			}
+		})
+		switch {
+		case pn != "" || err != nil:
+			res.Add(Finding{Kind: "violation", What: fmt.Sprintf("Config with an eagerly reporting watcher failed: %s %v", pn, err), Case: cs})
+		case setErr != nil:
+			res.Add(Finding{Kind: "violation", What: "Blank.SetSource failed for a watcher that reports while it is started: " + setErr.Error(), Case: cs})
+		case w.reportErr != nil:
+			res.Add(Finding{Kind: "violation", What: "the report made inside Watch failed: " + w.reportErr.Error(), Case: cs})
+		default:
+			if got := d.View().A; got != w.newer {
+				res.Add(Finding{Kind: "violation", What: fmt.Sprintf("after the watcher was started the config holds %d; its latest report was %d (the snapshot taken by Value() must not overwrite a later report)", got, w.newer), Case: cs})
+			}
+		}
+		cancel()
+		res.Count("blank.eager-watcher")
+		res.Case(fmt.Sprintf("eager|%v|%d|%d", native, w.init, w.newer), true, cs)
+	}
+}
